@@ -15,7 +15,8 @@ let res_str f r = match r with
   | M.Done v -> f v | M.Fault (_, z) -> "FAULT@" ^ zs z | M.OutOfFuel -> "OUTOFFUEL"
 
 (* spec: refused classes -> err; well-formed single-word headers -> the values at the specification's offsets;
-   anything else (multi-word chains, undefined bits) is not constrained here *)
+   well-formed chains of present words (resets, vendor namespaces) -> the chain specification; anything else (undefined bits,
+   field data beyond it_len) is not constrained here *)
 let op_rtap t =
   let a = ints_of_hex t.(1) in
   let n = Array.length a in
@@ -25,7 +26,9 @@ let op_rtap t =
   if n < 8 || a.(0) <> 0 || itlen < 8 || n < itlen || itlen > 255 then model ^ " ## rtap err"
   else begin
     let buf = List.map z_of_int (Array.to_list a) in
-    if M.s_wf1b buf then model ^ " ## rtap ok " ^ info_str (M.s_info buf) else model
+    if M.s_wf1b buf then model ^ " ## rtap ok " ^ info_str (M.s_info buf)
+    else if M.s_wf_chainb buf then model ^ " ## rtap ok " ^ info_str (M.s_info_chain buf)   (* chains: c09_chain *)
+    else model
   end
 
 let op_rssi t =
